@@ -54,7 +54,7 @@ Definition mem (s : string) (l : list string) : bool := existsb (String.eqb s) l
 Definition has_suffix (s suf : string) : bool :=
   let ls := String.length s in
   let lf := String.length suf in
-  if lf <=? ls then String.eqb (substring (ls - lf) lf s) suf else false.
+  if Nat.leb lf ls then String.eqb (substring (ls - lf) lf s) suf else false.
 
 Definition trim_prefix (pre s : string) : string :=
   if prefix pre s then substring (String.length pre) (String.length s - String.length pre) s else s.
@@ -126,7 +126,7 @@ Fixpoint number_name (fuel : nat) (d : dmap) (name : string) (v : N) : string * 
 Definition get_safe_param_name (d : dmap) (name : string) (always : bool) : string * dmap :=
   let v := match dget d name with Some v => v | None => 0%N end in
   if dmem d name || always
-  then let '(r, v') := number_name (S (length d)) d name v in (r, dset d name v')
+  then let '(r, v') := number_name (S (List.length d)) d name v in (r, dset d name v')
   else (name, dset d name v).
 
 Definition reserve (d : dmap) (name : string) : dmap :=
@@ -164,7 +164,7 @@ Fixpoint ensure_names_from (d : dmap) (is_output : bool) (len i : nat) (ps : lis
       else let '(r', d') := ensure_names_from d is_output len (S i) r in (p :: r', d')
   end.
 Definition ensure_names (d : dmap) (is_output : bool) (ps : list pinfo) : list pinfo * dmap :=
-  ensure_names_from d is_output (length ps) 0 ps.
+  ensure_names_from d is_output (List.length ps) 0 ps.
 
 Definition ensure_param_names (ins outs : list pinfo) : list pinfo * list pinfo :=
   let '(ins1, d1) := keep_names [] ins in
@@ -174,7 +174,7 @@ Definition ensure_param_names (ins outs : list pinfo) : list pinfo * list pinfo 
   (ins2, outs2).
 
 Definition final_names (ins outs : list pinfo) : list string :=
-  let '(i, o) := ensure_param_names ins outs in map pi_name (i ++ o).
+  let '(i, o) := ensure_param_names ins outs in map pi_name (i ++ o)%list.
 
 (* ---- the pinned code (before fixes/C19-param-names.patch) ---- *)
 Definition get_safe_param_name_orig (d : dmap) (name : string) (always : bool) : string * dmap :=
@@ -205,13 +205,13 @@ Fixpoint unnamed_pass_orig (d : dmap) (is_output : bool) (len i : nat) (ps : lis
       else let '(r', d') := unnamed_pass_orig d is_output len (S i) r in (p :: r', d')
   end.
 Definition ensure_names_orig (d : dmap) (is_output : bool) (ps : list pinfo) :=
-  let '(ps1, d1) := named_pass_orig d ps in unnamed_pass_orig d1 is_output (length ps) 0 ps1.
+  let '(ps1, d1) := named_pass_orig d ps in unnamed_pass_orig d1 is_output (List.length ps) 0 ps1.
 Definition ensure_param_names_orig (ins outs : list pinfo) : list pinfo * list pinfo :=
   let '(ins1, d1) := ensure_names_orig [] false ins in
   let '(outs1, _) := ensure_names_orig d1 true outs in
   (ins1, outs1).
 Definition final_names_orig (ins outs : list pinfo) : list string :=
-  let '(i, o) := ensure_param_names_orig ins outs in map pi_name (i ++ o).
+  let '(i, o) := ensure_param_names_orig ins outs in map pi_name (i ++ o)%list.
 
 (* ---- specification of the names (judges observations and is what C19_names proves) ---- *)
 (* user-chosen name at each position (None = unnamed or _), inputs then outputs *)
@@ -229,6 +229,20 @@ Fixpoint keptb (seen : list string) (users : list (option string)) (finals : lis
   | Some u :: us, f :: fs => (mem u seen || String.eqb f u) && keptb (u :: seen) us fs
   | _, _ => false
   end.
+
+(* the same as a relation that also covers lists in which the user repeats a name (which Go
+   rejects): a user name stays as written unless it equals a name already given to an earlier
+   user-named parameter *)
+Fixpoint kept (seen : list string) (users : list (option string)) (finals : list string) : Prop :=
+  match users, finals with
+  | [], [] => True
+  | None :: us, _ :: fs => kept seen us fs
+  | Some u :: us, f :: fs => (In u seen \/ f = u) /\ kept (f :: seen) us fs
+  | _, _ => False
+  end.
+
+Fixpoint somes {A} (l : list (option A)) : list A :=
+  match l with [] => [] | Some x :: r => x :: somes r | None :: r => somes r end.
 
 Definition names_okb (params : list pinfo) (finals : list string) : bool :=
   nodupb finals && forallb valid_identb finals && keptb [] (map user_name params) finals.
@@ -316,7 +330,7 @@ Definition add_named (e : env) (st : table) (pkg : option (string * string))
 Definition trim_slice (x : texpr) : texpr := match x with ESlice y => y | _ => x end.
 
 Definition zip_names (ps : list pinfo) (xs : list (bool * texpr)) : list (string * bool * texpr) :=
-  map (fun '(p, (v, x)) => (pi_name p, v, x)) (combine ps xs).
+  map (fun q : pinfo * (bool * texpr) => (pi_name (fst q), fst (snd q), snd (snd q))) (combine ps xs).
 
 Section Extract.
   Variable e : env.
@@ -380,11 +394,13 @@ End Extract.
 
 (* ---- printing (Signature / Declarations / TypeNames) ---- *)
 Definition declarations (ps : list (string * bool * string)) : string :=
-  join ", " (map (fun '(n, v, s) => n ++ (if v then "..." else "") ++ " " ++ s) ps).
+  join ", " (map (fun p : string * bool * string =>
+                   let '(n, v, s) := p in n ++ (if v then "..." else "") ++ " " ++ s) ps).
 Definition type_names (ps : list (string * bool * string)) : string :=
-  join ", " (map (fun '(_, v, s) => (if v then "[]" else "") ++ s) ps).
+  join ", " (map (fun p : string * bool * string =>
+                   let '(_, v, s) := p in (if v then "[]" else "") ++ s) ps).
 Definition sig_text (name : string) (ins outs : list (string * bool * string)) : string :=
-  if 1 <? length outs
+  if Nat.ltb 1 (List.length outs)
   then name ++ "(" ++ declarations ins ++ ") (" ++ type_names outs ++ ")"
   else name ++ "(" ++ declarations ins ++ ") " ++ type_names outs.
 
@@ -399,8 +415,8 @@ Fixpoint print (x : texpr) : string :=
   | EArray n y => "[" ++ itoa n ++ "]" ++ print y
   | EMap k v => "map[" ++ print k ++ "]" ++ print v
   | EFunc ins outs =>
-      sig_text "func" (map (fun '(n, v, y) => (n, v, print y)) ins)
-                      (map (fun '(n, v, y) => (n, v, print y)) outs)
+      sig_text "func" (map (fun p : string * bool * texpr => let '(n, v, y) := p in (n, v, print y)) ins)
+                      (map (fun p : string * bool * texpr => let '(n, v, y) := p in (n, v, print y)) outs)
   end.
 
 (* ---- what a rendered reference denotes (specification side) ---- *)
@@ -415,8 +431,8 @@ Fixpoint erase (t : ty) : ty :=
   | TSlice x => TSlice (erase x)
   | TArray n x => TArray n (erase x)
   | TMap k v => TMap (erase k) (erase v)
-  | TFunc ps v rs => TFunc (map (fun '(_, x) => (blank, erase x)) ps) v
-                           (map (fun '(_, x) => (blank, erase x)) rs)
+  | TFunc ps v rs => TFunc (map (fun p : pinfo * ty => (blank, erase (snd p))) ps) v
+                           (map (fun p : pinfo * ty => (blank, erase (snd p))) rs)
   end.
 
 (* the package an alias is bound to by the active imports *)
@@ -461,10 +477,11 @@ Section Denote.
                   | _, _ => None
                   end
     | EFunc ins outs =>
-        let den := fun '(_, v, y) =>
-                     option_map (fun t => (blank, if (v : bool) then TSlice t else t)) (denote y) in
+        let den := fun p : string * bool * texpr =>
+                     let '(_, v, y) := p in
+                     option_map (fun t => (blank, if v then TSlice t else t)) (denote y) in
         match sequence (map den ins), sequence (map den outs) with
-        | Some ps, Some rs => Some (TFunc ps (existsb (fun '(_, v, _) => v) ins) rs)
+        | Some ps, Some rs => Some (TFunc ps (existsb (fun p : string * bool * texpr => snd (fst p)) ins) rs)
         | _, _ => None
         end
     end.
@@ -474,11 +491,11 @@ End Denote.
 Fixpoint qualifiers (x : texpr) : list string :=
   match x with
   | ERaw _ => []
-  | EName q _ args => (match q with Some a => [a] | None => [] end) ++ flat_map qualifiers args
+  | EName q _ args => ((match q with Some a => [a] | None => [] end) ++ flat_map qualifiers args)%list
   | EPtr y | ESlice y | EArray _ y => qualifiers y
-  | EMap k v => qualifiers k ++ qualifiers v
-  | EFunc ins outs => flat_map (fun '(_, _, y) => qualifiers y) ins ++
-                      flat_map (fun '(_, _, y) => qualifiers y) outs
+  | EMap k v => (qualifiers k ++ qualifiers v)%list
+  | EFunc ins outs => (flat_map (fun p : string * bool * texpr => qualifiers (snd p)) ins ++
+                       flat_map (fun p : string * bool * texpr => qualifiers (snd p)) outs)%list
   end.
 
 (* ------------------------------------------------------------------ (b) method collection *)
@@ -501,7 +518,7 @@ Fixpoint height (t : tree) : nat :=
 (* Go's selector rule for methods of *T: the name must be declared exactly once at the
    shallowest embedding depth at which it is declared at all *)
 Definition count_level (lvl : list tree) (n : string) : nat :=
-  length (filter (fun t => mem n (own_names t)) lvl).
+  List.length (filter (fun t => mem n (own_names t)) lvl).
 Fixpoint ms_level (fuel : nat) (lvl : list tree) (n : string) : bool :=
   match count_level lvl n with
   | 0 => match fuel with O => false | S f => ms_level f (flat_map t_emb lvl) n end
@@ -529,8 +546,8 @@ Fixpoint render_methods (e : env) (st : table) (ms : list meth) : list rmeth * t
   end.
 
 Definition signature (m : rmeth) : string :=
-  sig_text (rm_name m) (map (fun '(n, v, y) => (n, v, print y)) (rm_in m))
-                       (map (fun '(n, v, y) => (n, v, print y)) (rm_out m)).
+  sig_text (rm_name m) (map (fun p : string * bool * texpr => let '(n, v, y) := p in (n, v, print y)) (rm_in m))
+                       (map (fun p : string * bool * texpr => let '(n, v, y) := p in (n, v, print y)) (rm_out m)).
 
 (* the loop over one embedded interface's methods: methodsToAdd (first-seen, by name) and the
    conflict set ignoreEmbeddedMethodsNamed *)
@@ -540,7 +557,7 @@ Definition merge_one {A} (name : A -> string) (st : list A * list string) (m : A
   if mem (name m) ign then st
   else if existsb (fun x => String.eqb (name x) (name m)) toadd
        then (filter (fun x => negb (String.eqb (name x) (name m))) toadd, name m :: ign)
-       else (toadd ++ [m], ign).
+       else ((toadd ++ [m])%list, ign).
 Definition merge {A} (name : A -> string) (st : list A * list string) (ms : list A) :=
   fold_left (merge_one name) ms st.
 
@@ -564,7 +581,7 @@ Section ToIface.
              | f :: r => let '(ms, s1) := to_iface_gen st f in
                          go (merge rm_name acc ms) s1 r
              end) ([], map rm_name own') st2 embs in
-        (own' ++ filter (fun m => negb ms_filter || go_ms t (rm_name m)) (fst acc), st3)
+        ((own' ++ filter (fun m => negb ms_filter || go_ms t (rm_name m)) (fst acc))%list, st3)
     end.
 End ToIface.
 
@@ -590,7 +607,7 @@ Section Names.
         if negb emb then own' else
         let acc := fold_left (fun acc f => merge (fun n : string => n) acc (iface_names_gen f))
                              embs ([], own') in
-        own' ++ filter (fun n => negb ms_filter || go_ms t n) (fst acc)
+        (own' ++ filter (fun n => negb ms_filter || go_ms t n) (fst acc))%list
     end.
 End Names.
 Definition iface_names (priv emb : bool) := iface_names_gen priv emb true.
@@ -600,11 +617,11 @@ Definition iface_names_orig (priv emb : bool) := iface_names_gen priv emb false.
    own visible methods, plus (IncludeEmbedded) the visible promoted ones — in Go's method set,
    not defined by the type itself, and defined under at most one embedded field ---- *)
 Fixpoint all_names (t : tree) : list string :=
-  match t with Tr _ own embs => map m_name own ++ flat_map all_names embs end.
+  match t with Tr _ own embs => (map m_name own ++ flat_map all_names embs)%list end.
 
 Definition spec_added (priv : bool) (t : tree) (n : string) : bool :=
   (priv || exported n) && go_ms t n && negb (mem n (own_names t)) &&
-  (length (filter (fun f => go_ms f n) (t_emb t)) <=? 1).
+  Nat.leb (List.length (filter (fun f => go_ms f n) (t_emb t))) 1.
 
 Definition spec_methodb (priv emb : bool) (t : tree) (n : string) : bool :=
   mem n (vis_names priv t) || (emb && spec_added priv t n).
